@@ -1,42 +1,1174 @@
+// C06 correspondence driver: map layouts and key encodings, Go control plane vs eBPF programs.
+//
+// Inputs : the side-car of tools/gen_layouts ($VERIF_C06_LAYOUTS: the regenerated (Go type, C type, map)
+//
+//	triples), the freshly compiled objects ($VERIF_BPF_DIR) and the offsetof tables compiled from the
+//	same sources ($VERIF_C06_OFFS: c06_offs_<obj>.{bpf,x86}.o).
+//
+// Streams: layouts  one case per generated pair: the compilers' own offsetof/sizeof tables; real Go values Put
+//
+//	by cilium/ebpf (through the real Loader / managers where they have the path) into kernel maps
+//	of the C-declared size and read back raw; raw bytes read through the real Go readers.
+//	keys     one observation per case: the bytes the real Go code leaves in the kernel map and whether the
+//	real eBPF program (BPF_PROG_TEST_RUN) finds / honours them (MAC, IPv4 sites, circuit-id of every
+//	length 0..64, VLAN pair, ALG port key, LPM key), plus HashCircuitID against the Model.
+//	corpus   stored witnesses.
 package main
 
 import (
+	"bytes"
+	"debug/elf"
+	"encoding/binary"
+	"encoding/json"
 	"fmt"
 	"net"
+	"os"
 	"path/filepath"
+	"reflect"
+	"strings"
 
+	"verifharness/bpfrun"
+	"verifharness/vh"
+
+	cebpf "github.com/cilium/ebpf"
 	"github.com/codelaboratoryltd/bng/pkg/antispoof"
+	bngebpf "github.com/codelaboratoryltd/bng/pkg/ebpf"
 	"github.com/codelaboratoryltd/bng/pkg/nat"
 	"github.com/codelaboratoryltd/bng/pkg/qos"
 	"go.uber.org/zap"
-	"verifharness/bpfrun"
 )
 
-func main() {
-	dir, _ := bpfrun.Dir()
-	o, err := bpfrun.LoadObject(filepath.Join(dir, "nat44.o"))
-	fmt.Println(err, o.KernelBPF, o.VerifierOK, o.LoadErr)
-	m, _ := nat.NewManager(nat.ManagerConfig{Interface: "verif0", EnableHairpin: true}, zap.NewNop())
-	m.VerifInjectMaps(nat.VerifNATMaps{SubscriberNAT: o.Map("subscriber_nat"), NATStats: o.Map("nat_stats_map"), HairpinIPs: o.Map("hairpin_ips"), NATSessions: o.Map("nat_sessions"), EIMTable: o.Map("eim_table"), ALGPorts: o.Map("alg_ports"), NATConfig: o.Map("nat_config_map")})
-	st, err := m.GetStats()
-	fmt.Println(st, err)
-	key := make([]byte, 16)
-	copy(key, []byte{1, 0, 0, 10, 8, 8, 8, 8, 0x34, 0x12, 0x50, 0, 6, 0, 0, 0})
-	val := make([]byte, 80)
-	for i := range val {
-		val[i] = byte(i)
+// ------------------------------------------------------------------------------ side-car
+
+type Field struct {
+	Name  string `json:"name"`
+	Off   int    `json:"off"`
+	Width int    `json:"width"`
+	Count int    `json:"count"`
+	Pad   bool   `json:"pad"`
+}
+type Pair struct {
+	ID      string  `json:"id"`
+	Name    string  `json:"name"`
+	Object  string  `json:"object"`
+	Map     string  `json:"map"`
+	Role    string  `json:"role"`
+	GoPkg   string  `json:"go_pkg"`
+	GoType  string  `json:"go_type"`
+	GoLocal string  `json:"go_local"`
+	CType   string  `json:"c_type"`
+	Go      []Field `json:"go"`
+	C       []Field `json:"c"`
+	GoSize  int     `json:"go_size"`
+	CSize   int     `json:"c_size"`
+	Decl    int     `json:"decl"`
+	PerCPU  bool    `json:"percpu"`
+	Slice   bool    `json:"slice"`
+	Writes  bool    `json:"writes"`
+	Reads   bool    `json:"reads"`
+	MapType string  `json:"map_type"`
+}
+type SideCar struct {
+	Pairs []*Pair `json:"pairs"`
+}
+
+// ------------------------------------------------------------------------------ case descriptions (replayable)
+
+type Desc struct {
+	Kind  string     `json:"kind"` // layout | mac | ip | cid | vlan | alg | lpm | hash
+	Pair  string     `json:"pair,omitempty"`
+	Field string     `json:"field,omitempty"`
+	Vals  [][][]uint64 `json:"vals,omitempty"` // layout: value tuples for OPut
+	Raws  [][]byte   `json:"raws,omitempty"` // layout: raw byte strings for OGet
+	Mac   []byte     `json:"mac,omitempty"`
+	Site  int        `json:"site,omitempty"`
+	IP    []byte     `json:"ip,omitempty"`
+	Cid   []byte     `json:"cid,omitempty"`
+	S     uint16     `json:"s,omitempty"`
+	C     uint16     `json:"c,omitempty"`
+	P1    uint8      `json:"p1,omitempty"`
+	P2    uint8      `json:"p2,omitempty"`
+	Port  uint16     `json:"port,omitempty"`
+	Proto uint8      `json:"proto,omitempty"`
+	Plen  int        `json:"plen,omitempty"`
+	Src   []byte     `json:"src,omitempty"`
+}
+
+// ------------------------------------------------------------------------------ environment
+
+type env struct {
+	dir     string
+	objs    map[string]*bpfrun.Object
+	kernel  bool
+	pairs   map[string]*Pair
+	order   []*Pair
+	offs    map[string]map[string][]uint64 // target -> ctype -> table
+	loader  *bngebpf.Loader
+	natm    *nat.Manager
+	qosm    *qos.Manager
+	asm     *antispoof.Manager
+	runs    int
+	skipped map[string]string
+	errs    []string
+}
+
+func must(err error) {
+	if err != nil {
+		panic(err)
 	}
-	fmt.Println(o.Put("nat_sessions", key, val))
-	s, err := m.LookupSession(net.ParseIP("10.0.0.1"), net.ParseIP("8.8.8.8"), 0x1234, 0x50, 6)
-	fmt.Printf("%+v %v\n", s, err)
-	q, _ := bpfrun.LoadObject(filepath.Join(dir, "qos_ratelimit.o"))
-	qm, _ := qos.NewManager(qos.ManagerConfig{Interface: "verif0"}, nil, zap.NewNop())
-	qm.VerifInjectMaps(q.Map("qos_egress"), q.Map("qos_ingress"), q.Map("qos_stats_map"))
-	qs, err := qm.GetStats()
-	fmt.Println(qs, err)
-	a, _ := bpfrun.LoadObject(filepath.Join(dir, "antispoof.o"))
-	am, _ := antispoof.NewManager(antispoof.ManagerConfig{Interface: "verif0"}, zap.NewNop())
-	am.VerifInjectMaps(a.Map("subscriber_bindings"), a.Map("antispoof_config"), a.Map("antispoof_stats"), a.Map("allowed_ranges_v4"))
-	as, err := am.GetStats()
-	fmt.Println(as, err)
+}
+
+func newEnv() *env {
+	e := &env{objs: map[string]*bpfrun.Object{}, pairs: map[string]*Pair{}, offs: map[string]map[string][]uint64{}, skipped: map[string]string{}}
+	var err error
+	e.dir, err = bpfrun.Dir()
+	must(err)
+	e.kernel = true
+	for _, n := range []string{"dhcp_fastpath", "nat44", "qos_ratelimit", "antispoof"} {
+		o, err := bpfrun.LoadObject(filepath.Join(e.dir, n+".o"))
+		if err != nil {
+			e.errs = append(e.errs, fmt.Sprintf("object %s: %v", n, err))
+			e.kernel = false
+			continue
+		}
+		e.objs[n] = o
+		if !o.KernelBPF || !o.VerifierOK {
+			e.kernel = false
+			e.errs = append(e.errs, fmt.Sprintf("object %s: kernel_bpf=%v verifier_ok=%v %s", n, o.KernelBPF, o.VerifierOK, o.LoadErr))
+		}
+	}
+	b, err := os.ReadFile(os.Getenv("VERIF_C06_LAYOUTS"))
+	must(err)
+	var sc SideCar
+	must(json.Unmarshal(b, &sc))
+	for _, p := range sc.Pairs {
+		e.pairs[p.Name] = p
+		e.order = append(e.order, p)
+	}
+	e.loadOffs()
+	if e.kernel {
+		e.setupManagers()
+	}
+	return e
+}
+
+func (e *env) m(obj, name string) *cebpf.Map { return e.objs[obj].Map(name) }
+
+func (e *env) setupManagers() {
+	lg := zap.NewNop()
+	var err error
+	e.loader, err = bngebpf.NewLoader("verif0", lg)
+	must(err)
+	e.loader.VerifInjectDHCPMaps(bngebpf.VerifDHCPMaps{
+		SubscriberPools: e.m("dhcp_fastpath", "subscriber_pools"), VLANSubscriberPools: e.m("dhcp_fastpath", "vlan_subscriber_pools"),
+		IPPools: e.m("dhcp_fastpath", "ip_pools"), Stats: e.m("dhcp_fastpath", "stats_map"), ServerConfig: e.m("dhcp_fastpath", "server_config"),
+		CircuitIDMap: e.m("dhcp_fastpath", "circuit_id_map"), CircuitIDSubscribers: e.m("dhcp_fastpath", "circuit_id_subscribers")})
+	e.newNat()
+	e.qosm, err = qos.NewManager(qos.ManagerConfig{Interface: "verif0"}, nil, lg)
+	must(err)
+	e.qosm.VerifInjectMaps(e.m("qos_ratelimit", "qos_egress"), e.m("qos_ratelimit", "qos_ingress"), e.m("qos_ratelimit", "qos_stats_map"))
+	e.asm, err = antispoof.NewManager(antispoof.ManagerConfig{Interface: "verif0", DefaultMode: antispoof.ModeStrict}, lg)
+	must(err)
+	e.asm.VerifInjectMaps(e.m("antispoof", "subscriber_bindings"), e.m("antispoof", "antispoof_config"), e.m("antispoof", "antispoof_stats"), e.m("antispoof", "allowed_ranges_v4"))
+}
+
+func (e *env) newNat() {
+	var err error
+	e.natm, err = nat.NewManager(nat.ManagerConfig{Interface: "verif0", EnableHairpin: true}, zap.NewNop())
+	must(err)
+	e.natm.VerifInjectMaps(nat.VerifNATMaps{SubscriberNAT: e.m("nat44", "subscriber_nat"), NATSessions: e.m("nat44", "nat_sessions"),
+		NATReverse: e.m("nat44", "nat_reverse"), NATPool: e.m("nat44", "nat_pool"), NATStats: e.m("nat44", "nat_stats_map"),
+		NATConfig: e.m("nat44", "nat_config_map"), EIMTable: e.m("nat44", "eim_table"), HairpinIPs: e.m("nat44", "hairpin_ips"),
+		ALGPorts: e.m("nat44", "alg_ports")})
+}
+
+// offsetof tables: symbol c06_offs in the objects the check compiled from the generated C files
+func (e *env) loadOffs() {
+	od := os.Getenv("VERIF_C06_OFFS")
+	for _, tgt := range []string{"bpf", "x86"} {
+		e.offs[tgt] = map[string][]uint64{}
+		for _, obj := range []string{"dhcp_fastpath", "nat44", "qos_ratelimit", "antispoof"} {
+			idxb, err := os.ReadFile(filepath.Join(od, "c06_offs_"+obj+".json"))
+			if err != nil {
+				continue
+			}
+			var idx []struct {
+				CType  string   `json:"c_type"`
+				Fields []string `json:"fields"`
+			}
+			must(json.Unmarshal(idxb, &idx))
+			tab, err := readTable(filepath.Join(od, "c06_offs_"+obj+"."+tgt+".o"))
+			if err != nil {
+				e.errs = append(e.errs, fmt.Sprintf("offsetof table %s/%s: %v", obj, tgt, err))
+				continue
+			}
+			pos := 0
+			for _, ent := range idx {
+				n := 1 + 2*len(ent.Fields)
+				if pos+n > len(tab) {
+					break
+				}
+				e.offs[tgt][obj+"/"+ent.CType] = tab[pos : pos+n]
+				pos += n
+			}
+		}
+	}
+}
+
+func readTable(path string) ([]uint64, error) {
+	f, err := elf.Open(path)
+	if err != nil {
+		return nil, err
+	}
+	defer f.Close()
+	syms, err := f.Symbols()
+	if err != nil {
+		return nil, err
+	}
+	for _, s := range syms {
+		if s.Name != "c06_offs" {
+			continue
+		}
+		sec := f.Sections[s.Section]
+		data, err := sec.Data()
+		if err != nil {
+			return nil, err
+		}
+		off := s.Value
+		if f.Type != elf.ET_REL {
+			off -= sec.Addr
+		}
+		raw := data[off : off+s.Size]
+		out := make([]uint64, len(raw)/8)
+		for i := range out {
+			out[i] = binary.LittleEndian.Uint64(raw[i*8:])
+		}
+		if len(out) == 0 || out[len(out)-1] != 0xC06C06C06 {
+			return nil, fmt.Errorf("sentinel missing")
+		}
+		return out[:len(out)-1], nil
+	}
+	return nil, fmt.Errorf("symbol c06_offs not found")
+}
+
+// ------------------------------------------------------------------------------ Go type registry + reflection
+
+var registry = map[string]reflect.Type{
+	"ebpf.PoolAssignment": reflect.TypeOf(bngebpf.PoolAssignment{}), "ebpf.VLANKey": reflect.TypeOf(bngebpf.VLANKey{}),
+	"ebpf.IPPool": reflect.TypeOf(bngebpf.IPPool{}), "ebpf.DHCPStats": reflect.TypeOf(bngebpf.DHCPStats{}),
+	"ebpf.ServerConfig": reflect.TypeOf(bngebpf.ServerConfig{}), "ebpf.CircuitIDKey": reflect.TypeOf(bngebpf.CircuitIDKey{}),
+	"nat.SubscriberNAT": reflect.TypeOf(nat.SubscriberNAT{}), "nat.NATSession": reflect.TypeOf(nat.NATSession{}),
+	"nat.EIMKey": reflect.TypeOf(nat.EIMKey{}), "nat.EIMMapping": reflect.TypeOf(nat.EIMMapping{}),
+	"nat.NATStats": reflect.TypeOf(nat.NATStats{}), "nat.NATConfig": reflect.TypeOf(nat.NATConfig{}),
+	"nat.BPFLogEntry": reflect.TypeOf(nat.BPFLogEntry{}), "nat.ALGConfig": reflect.TypeOf(nat.ALGConfig{}),
+	"qos.TokenBucket": reflect.TypeOf(qos.TokenBucket{}), "qos.QoSStats": reflect.TypeOf(qos.QoSStats{}),
+	"antispoof.SubscriberBinding": reflect.TypeOf(antispoof.SubscriberBinding{}), "antispoof.Config": reflect.TypeOf(antispoof.Config{}),
+	"antispoof.Stats": reflect.TypeOf(antispoof.Stats{}), "antispoof.SpoofEvent": reflect.TypeOf(antispoof.SpoofEvent{}),
+}
+
+func goType(p *Pair) reflect.Type {
+	switch p.GoType {
+	case "uint8":
+		return reflect.TypeOf(uint8(0))
+	case "uint16":
+		return reflect.TypeOf(uint16(0))
+	case "uint32":
+		return reflect.TypeOf(uint32(0))
+	case "uint64":
+		return reflect.TypeOf(uint64(0))
+	}
+	return registry[p.GoPkg+"."+p.GoType]
+}
+
+func fill(v reflect.Value, vs *[][]uint64) {
+	switch v.Kind() {
+	case reflect.Uint8, reflect.Uint16, reflect.Uint32, reflect.Uint64:
+		v.SetUint((*vs)[0][0])
+		*vs = (*vs)[1:]
+	case reflect.Array:
+		for i := 0; i < v.Len(); i++ {
+			v.Index(i).SetUint((*vs)[0][i])
+		}
+		*vs = (*vs)[1:]
+	case reflect.Struct:
+		for i := 0; i < v.NumField(); i++ {
+			if v.Type().Field(i).Name == "_" {
+				continue
+			}
+			fill(v.Field(i), vs)
+		}
+	default:
+		panic("unsupported kind " + v.Kind().String())
+	}
+}
+
+func flat(v reflect.Value, out *[][]uint64) {
+	switch v.Kind() {
+	case reflect.Uint8, reflect.Uint16, reflect.Uint32, reflect.Uint64:
+		*out = append(*out, []uint64{v.Uint()})
+	case reflect.Array:
+		var l []uint64
+		for i := 0; i < v.Len(); i++ {
+			l = append(l, v.Index(i).Uint())
+		}
+		*out = append(*out, l)
+	case reflect.Struct:
+		for i := 0; i < v.NumField(); i++ {
+			if v.Type().Field(i).Name == "_" {
+				continue
+			}
+			flat(v.Field(i), out)
+		}
+	default:
+		panic("unsupported kind " + v.Kind().String())
+	}
+}
+
+// ------------------------------------------------------------------------------ Coq printing
+
+func nl(l []uint64) string {
+	s := make([]string, len(l))
+	for i, x := range l {
+		s[i] = fmt.Sprintf("%d", x)
+	}
+	return "[" + strings.Join(s, ";") + "]"
+}
+func nll(l [][]uint64) string {
+	s := make([]string, len(l))
+	for i, x := range l {
+		s[i] = nl(x)
+	}
+	return "[" + strings.Join(s, "; ") + "]"
+}
+func bl(b []byte) []uint64 {
+	l := make([]uint64, len(b))
+	for i, x := range b {
+		l[i] = uint64(x)
+	}
+	return l
+}
+func b2n(b bool) uint64 {
+	if b {
+		return 1
+	}
+	return 0
+}
+
+type obs struct{ op, out string }
+
+func caseTerm(os []obs) string {
+	s := make([]string, len(os))
+	for i, o := range os {
+		s[i] = "(" + o.op + ",\n   " + o.out + ")"
+	}
+	return "[" + strings.Join(s, ";\n  ") + "]"
+}
+
+// ------------------------------------------------------------------------------ layouts stream
+
+func (e *env) rawKeyFor(p *Pair, r *vh.Rng) []byte {
+	o := e.objs[p.Object]
+	ks, _, _ := o.Sizes(p.Map)
+	k := make([]byte, ks)
+	switch o.Spec.Maps[p.Map].Type {
+	case cebpf.Array, cebpf.PerCPUArray:
+	case cebpf.LPMTrie:
+		copy(k, r.Bytes(int(ks)))
+		binary.LittleEndian.PutUint32(k, 32)
+	default:
+		copy(k, r.Bytes(int(ks)))
+	}
+	return k
+}
+
+func isArrayMap(t cebpf.MapType) bool { return t == cebpf.Array || t == cebpf.PerCPUArray }
+
+// genVals: value tuples for the non-padding Go members
+func genVals(p *Pair, r *vh.Rng, mode int) [][]uint64 {
+	var vs [][]uint64
+	n := uint64(1)
+	for _, f := range p.Go {
+		if f.Pad {
+			continue
+		}
+		maxv := uint64(1)<<(8*uint(f.Width)) - 1
+		if f.Width == 8 {
+			maxv = ^uint64(0)
+		}
+		l := make([]uint64, f.Count)
+		for i := range l {
+			switch mode {
+			case 0:
+				l[i] = 0
+			case 1:
+				l[i] = maxv
+			case 2: // distinct recognisable values: member index in every byte position
+				l[i] = (n * 0x0101010101010101) & maxv
+				n++
+			default:
+				l[i] = r.U64() & maxv
+			}
+		}
+		vs = append(vs, l)
+	}
+	return vs
+}
+
+func (e *env) layoutCase(p *Pair, d Desc) vh.Case {
+	record := p.Role == "record"
+	rec := "false"
+	if record {
+		rec = "true"
+	}
+	var os_ []obs
+	tags := []string{"pair", "role:" + p.Role}
+	// (a) the compilers' own tables
+	if strings.HasPrefix(p.CType, "struct ") {
+		for ti, tgt := range []string{"bpf", "x86"} {
+			tab, ok := e.offs[tgt][p.Object+"/"+p.CType]
+			if !ok {
+				e.errs = append(e.errs, "no offsetof table for "+p.Name+" ("+tgt+")")
+				continue
+			}
+			out := [][]uint64{{tab[0]}}
+			for i := 1; i+1 < len(tab); i += 2 {
+				out = append(out, []uint64{tab[i], tab[i+1]})
+			}
+			os_ = append(os_, obs{fmt.Sprintf("OCLayout pair_%s %d", p.ID, ti), nll(out)})
+		}
+		tags = append(tags, "offsetof-tables")
+	}
+	gt := goType(p)
+	if !e.kernel && !record {
+		return vh.Case{Coq: caseTerm(os_), Desc: d, Tags: append(tags, "no-kernel")}
+	}
+	if gt == nil && p.GoLocal == "" {
+		e.skipped[p.Name] = "Go type not in the driver's registry"
+		return vh.Case{Coq: caseTerm(os_), Desc: d, Tags: append(tags, "unexercised")}
+	}
+	var mp *cebpf.Map
+	var mt cebpf.MapType
+	if !record {
+		mp = e.m(p.Object, p.Map)
+		mt = e.objs[p.Object].Spec.Maps[p.Map].Type
+	}
+	r := vh.NewRng(uint64(len(p.Name))*7919 + 17)
+	// (b) writes
+	if p.Writes && gt != nil {
+		for _, vs := range d.Vals {
+			if p.Role == "key" && isArrayMap(mt) {
+				vs = [][]uint64{{0}}
+			}
+			if p.Role == "key" && mt == cebpf.PerCPUArray {
+				e.skipped[p.Name] = "index key of a per-CPU array: key bytes are not observable; the uint32 key is exercised on the other arrays"
+				break
+			}
+			if p.Role == "key" && mt == cebpf.LPMTrie {
+				break
+			}
+			v := reflect.New(gt)
+			tmp := append([][]uint64(nil), vs...)
+			fill(v.Elem(), &tmp)
+			ok, raw := e.putObserve(p, mp, mt, v, r)
+			os_ = append(os_, obs{fmt.Sprintf("OPut %s pair_%s %s", rec, p.ID, nll(vs)), nll([][]uint64{{b2n(ok)}, bl(raw)})})
+			tags = append(tags, "put")
+		}
+	}
+	// local key types: through the only code that can build them
+	if p.GoLocal == "AddAllowedRange" && p.Role == "key" {
+		for _, c := range [][]byte{{10, 0, 0, 0, 8}, {192, 168, 7, 0, 24}, {1, 2, 3, 4, 32}, {0, 0, 0, 0, 0}, {100, 64, 0, 0, 10}} {
+			e.clear("antispoof", "allowed_ranges_v4")
+			_, n, _ := net.ParseCIDR(fmt.Sprintf("%d.%d.%d.%d/%d", c[0], c[1], c[2], c[3], c[4]))
+			err := e.asm.AddAllowedRange(n)
+			kvs, _ := e.objs["antispoof"].Dump("allowed_ranges_v4")
+			var raw []byte
+			if len(kvs) == 1 {
+				raw = kvs[0].Key
+			}
+			vs := [][]uint64{{uint64(c[4])}, {uint64(binary.BigEndian.Uint32(n.IP.To4()))}}
+			os_ = append(os_, obs{fmt.Sprintf("OPut false pair_%s %s", p.ID, nll(vs)), nll([][]uint64{{b2n(err == nil && len(kvs) == 1)}, bl(raw)})})
+			tags = append(tags, "put", "via:antispoof.AddAllowedRange")
+		}
+	}
+	if p.GoLocal == "LookupSession" && p.Role == "key" {
+		for i := 0; i < 4; i++ {
+			e.clear("nat44", "nat_sessions")
+			src, dst := r.Bytes(4), r.Bytes(4)
+			sp, dp, pr := uint16(r.U64()), uint16(r.U64()), uint8(r.U64())
+			vs := [][]uint64{{uint64(binary.BigEndian.Uint32(src))}, {uint64(binary.BigEndian.Uint32(dst))}, {uint64(sp)}, {uint64(dp)}, {uint64(pr)}}
+			// the key bytes a sequential little-endian marshalling of (SrcIP, DstIP, SrcPort, DstPort, Protocol, pad[3]) gives
+			key := make([]byte, 16)
+			binary.LittleEndian.PutUint32(key[0:], binary.BigEndian.Uint32(src))
+			binary.LittleEndian.PutUint32(key[4:], binary.BigEndian.Uint32(dst))
+			binary.LittleEndian.PutUint16(key[8:], sp)
+			binary.LittleEndian.PutUint16(key[10:], dp)
+			key[12] = pr
+			_, vsz, _ := e.objs["nat44"].Sizes("nat_sessions")
+			perr := e.objs["nat44"].Put("nat_sessions", key, make([]byte, vsz))
+			_, lerr := e.natm.LookupSession(net.IP(src), net.IP(dst), sp, dp, pr)
+			found := perr == nil && lerr == nil
+			raw := key
+			if !found {
+				raw = nil
+			}
+			os_ = append(os_, obs{fmt.Sprintf("OPut false pair_%s %s", p.ID, nll(vs)), nll([][]uint64{{b2n(found)}, bl(raw)})})
+			tags = append(tags, "put", "via:nat.LookupSession")
+		}
+	}
+	// (c) reads
+	if p.Reads && gt != nil {
+		for _, raw := range d.Raws {
+			ok, vals := e.getObserve(p, mp, mt, gt, raw, r)
+			out := [][]uint64{{b2n(ok)}}
+			if ok {
+				out = append(out, vals...)
+			}
+			os_ = append(os_, obs{fmt.Sprintf("OGet %s pair_%s %s", rec, p.ID, nl(bl(raw))), nll(out)})
+			tags = append(tags, "get")
+		}
+	}
+	if len(os_) == 0 || (!strings.Contains(strings.Join(tags, " "), "put") && !strings.Contains(strings.Join(tags, " "), "get")) {
+		if _, ok := e.skipped[p.Name]; !ok {
+			e.skipped[p.Name] = "no write or read observation possible"
+		}
+		tags = append(tags, "unexercised")
+	}
+	return vh.Case{Coq: caseTerm(os_), Desc: d, Tags: tags}
+}
+
+func (e *env) clear(obj, name string) {
+	o := e.objs[obj]
+	t := o.Spec.Maps[name].Type
+	if isArrayMap(t) {
+		return
+	}
+	o.Clear(name)
+}
+
+// putObserve writes the Go value (through the real Loader where it has the path) and returns the raw bytes
+func (e *env) putObserve(p *Pair, mp *cebpf.Map, mt cebpf.MapType, v reflect.Value, r *vh.Rng) (bool, []byte) {
+	e.clear(p.Object, p.Map)
+	o := e.objs[p.Object]
+	if p.Role == "value" {
+		key := e.rawKeyFor(p, r)
+		var err error
+		switch x := v.Interface().(type) {
+		case *bngebpf.PoolAssignment:
+			switch p.Map {
+			case "subscriber_pools":
+				err = e.loader.AddSubscriber(binary.LittleEndian.Uint64(key), x)
+			case "vlan_subscriber_pools":
+				err = e.loader.AddVLANSubscriber(binary.LittleEndian.Uint16(key), binary.LittleEndian.Uint16(key[2:]), x)
+			default:
+				err = mp.Put(key, x)
+			}
+		case *bngebpf.IPPool:
+			err = e.loader.AddPool(binary.LittleEndian.Uint32(key), x)
+		default:
+			err = mp.Put(key, v.Interface())
+		}
+		if err != nil {
+			return false, nil
+		}
+		raw, err := mp.LookupBytes(key)
+		if err != nil || raw == nil {
+			return false, nil
+		}
+		return true, raw
+	}
+	// key: Put(&goKey, zero value), then dump the only entry
+	_, vsz, _ := o.Sizes(p.Map)
+	if err := mp.Put(v.Interface(), make([]byte, vsz)); err != nil {
+		return false, nil
+	}
+	kvs, err := o.Dump(p.Map)
+	if err != nil || len(kvs) != 1 {
+		return false, nil
+	}
+	return true, kvs[0].Key
+}
+
+// getObserve places raw bytes in the kernel map and reads them with the real Go reader
+func (e *env) getObserve(p *Pair, mp *cebpf.Map, mt cebpf.MapType, gt reflect.Type, raw []byte, r *vh.Rng) (bool, [][]uint64) {
+	var vals [][]uint64
+	if p.Role == "record" {
+		// the reader sketched in nat.readLogRingBuffer: binary.Read(bytes.NewReader(sample), LittleEndian, &entry)
+		v := reflect.New(gt)
+		if err := binary.Read(bytes.NewReader(raw), binary.LittleEndian, v.Interface()); err != nil {
+			return false, nil
+		}
+		flat(v.Elem(), &vals)
+		return true, vals
+	}
+	e.clear(p.Object, p.Map)
+	key := e.rawKeyFor(p, r)
+	if p.PerCPU {
+		n := possibleCPUs()
+		per := make([][]byte, n)
+		for i := range per {
+			per[i] = make([]byte, len(raw))
+		}
+		per[0] = raw
+		if err := mp.Put(key, per); err != nil {
+			return false, nil
+		}
+		var res interface{}
+		var err error
+		switch p.Map { // real readers (they sum over the CPUs; only CPU 0 is non-zero)
+		case "nat_stats_map":
+			res, err = e.natm.GetStats()
+		case "qos_stats_map":
+			res, err = e.qosm.GetStats()
+		case "antispoof_stats":
+			res, err = e.asm.GetStats()
+		default:
+			sl := reflect.New(reflect.SliceOf(gt))
+			err = mp.Lookup(key, sl.Interface())
+			if err == nil {
+				res = sl.Elem().Index(0).Addr().Interface()
+			}
+		}
+		if err != nil {
+			return false, nil
+		}
+		flat(reflect.ValueOf(res).Elem(), &vals)
+		return true, vals
+	}
+	if err := mp.Put(key, raw); err != nil {
+		return false, nil
+	}
+	var res interface{}
+	var err error
+	switch {
+	case p.Map == "subscriber_pools":
+		res, err = e.loader.GetSubscriber(binary.LittleEndian.Uint64(key))
+	case p.Map == "ip_pools":
+		res, err = e.loader.GetPool(binary.LittleEndian.Uint32(key))
+	case p.Map == "stats_map":
+		res, err = e.loader.GetStats()
+	case p.Map == "server_config":
+		res, err = e.loader.GetServerConfig()
+	case p.Map == "vlan_subscriber_pools":
+		res, err = e.loader.GetVLANSubscriber(binary.LittleEndian.Uint16(key), binary.LittleEndian.Uint16(key[2:]))
+	default:
+		v := reflect.New(gt)
+		err = mp.Lookup(key, v.Interface())
+		res = v.Interface()
+	}
+	if err != nil {
+		return false, nil
+	}
+	flat(reflect.ValueOf(res).Elem(), &vals)
+	return true, vals
+}
+
+func (e *env) layoutDesc(p *Pair, r *vh.Rng, n int) Desc {
+	d := Desc{Kind: "layout", Pair: p.Name}
+	for i := 0; i < n; i++ {
+		d.Vals = append(d.Vals, genVals(p, r, i))
+		sz := p.Decl
+		raw := r.Bytes(sz)
+		switch i {
+		case 0:
+			raw = make([]byte, sz)
+		case 1:
+			for j := range raw {
+				raw[j] = 0xff
+			}
+		case 2:
+			for j := range raw {
+				raw[j] = byte(j + 1)
+			}
+		}
+		d.Raws = append(d.Raws, raw)
+	}
+	return d
+}
+
+// ------------------------------------------------------------------------------ frames
+
+func ethHdr(dst, src []byte, tags [][2]uint16, et uint16) []byte {
+	f := append(append([]byte{}, dst...), src...)
+	for _, t := range tags {
+		f = append(f, byte(t[0]>>8), byte(t[0]), byte(t[1]>>8), byte(t[1]))
+	}
+	return append(f, byte(et>>8), byte(et))
+}
+
+func ipv4(src, dst []byte, proto byte, payload []byte) []byte {
+	tl := 20 + len(payload)
+	h := []byte{0x45, 0, byte(tl >> 8), byte(tl), 0, 1, 0, 0, 64, proto, 0, 0}
+	h = append(h, src...)
+	h = append(h, dst...)
+	return append(h, payload...)
+}
+
+func udp(sp, dp uint16, payload []byte) []byte {
+	l := 8 + len(payload)
+	return append([]byte{byte(sp >> 8), byte(sp), byte(dp >> 8), byte(dp), byte(l >> 8), byte(l), 0, 0}, payload...)
+}
+
+func tcp(sp, dp uint16) []byte {
+	h := make([]byte, 20)
+	h[0], h[1], h[2], h[3] = byte(sp>>8), byte(sp), byte(dp>>8), byte(dp)
+	h[12] = 5 << 4
+	h[13] = 2 // SYN
+	return h
+}
+
+// DHCPDISCOVER with msg type at opts[0..2] and, when cid != nil, option 82 at opts[3]
+func dhcpDiscover(mac, cid []byte) []byte {
+	d := make([]byte, 240+312)
+	d[0], d[1], d[2] = 1, 1, 6
+	copy(d[4:], []byte{0xde, 0xad, 0xbe, 0xef})
+	copy(d[28:], mac)
+	copy(d[236:], []byte{0x63, 0x82, 0x53, 0x63})
+	o := d[240:]
+	o[0], o[1], o[2] = 53, 1, 1
+	if cid == nil {
+		o[3] = 255
+		return d
+	}
+	o[3] = 82
+	o[4] = byte(2 + len(cid) + 4)
+	o[5] = 1
+	o[6] = byte(len(cid))
+	copy(o[7:], cid)
+	n := 7 + len(cid)
+	copy(o[n:], []byte{2, 2, 'r', 'r', 255})
+	return d
+}
+
+func dhcpFrame(mac, cid []byte, tags [][2]uint16) []byte {
+	et := uint16(0x0800)
+	var tt [][2]uint16
+	// ethHdr writes (TPID?, TCI) pairs: first the ethertype of the tag, then the TCI; build manually
+	f := append(append([]byte{}, []byte{0xff, 0xff, 0xff, 0xff, 0xff, 0xff}...), mac...)
+	for _, t := range tags {
+		f = append(f, byte(t[0]>>8), byte(t[0]), byte(t[1]>>8), byte(t[1]))
+	}
+	_ = tt
+	f = append(f, byte(et>>8), byte(et))
+	return append(f, ipv4([]byte{0, 0, 0, 0}, []byte{255, 255, 255, 255}, 17, udp(68, 67, dhcpDiscover(mac, cid)))...)
+}
+
+const maxU64 = ^uint64(0)
+
+// soft records an error of the real code (the observation then shows a miss) instead of aborting the run
+func (e *env) soft(err error) {
+	if err != nil {
+		msg := "real code returned an error: " + err.Error()
+		for _, x := range e.errs {
+			if x == msg {
+				return
+			}
+		}
+		e.errs = append(e.errs, msg)
+	}
+}
+
+func (e *env) dhcpReset() {
+	for _, n := range []string{"subscriber_pools", "vlan_subscriber_pools", "circuit_id_subscribers", "ip_pools", "circuit_id_map"} {
+		e.objs["dhcp_fastpath"].Clear(n)
+	}
+	e.soft(e.loader.AddPool(1, &bngebpf.IPPool{PrefixLen: 24, LeaseTime: 3600}))
+	e.soft(e.loader.SetServerConfig(net.HardwareAddr{2, 0, 0, 0, 0, 1}, net.IPv4(0, 0, 0, 0), 1))
+}
+
+func (e *env) runXDP(frame []byte) (uint32, []byte) {
+	e.runs++
+	v, out, err := e.objs["dhcp_fastpath"].RunXDP("dhcp_fastpath_prog", frame)
+	if err != nil {
+		e.errs = append(e.errs, "RunXDP: "+err.Error())
+		return 0xffff, nil
+	}
+	return v, out
+}
+
+func (e *env) runTC(obj, prog string, frame []byte) (uint32, []byte) {
+	e.runs++
+	v, out, _, err := e.objs[obj].RunTC(prog, frame, nil)
+	if err != nil {
+		e.errs = append(e.errs, "RunTC "+prog+": "+err.Error())
+		return 0xffff, nil
+	}
+	return v, out
+}
+
+// ------------------------------------------------------------------------------ key observations
+
+func (e *env) keyCase(d Desc) vh.Case {
+	var o obs
+	tags := []string{d.Kind}
+	switch d.Kind {
+	case "mac":
+		mac := net.HardwareAddr(d.Mac)
+		// ebpf.MACToUint64 -> Loader.AddSubscriber -> subscriber_pools ; dhcp_fastpath_prog with chaddr = mac
+		e.dhcpReset()
+		e.soft(e.loader.AddSubscriber(bngebpf.MACToUint64(mac), &bngebpf.PoolAssignment{PoolID: 1, LeaseExpiry: maxU64}))
+		kv, _ := e.objs["dhcp_fastpath"].Dump("subscriber_pools")
+		v1, _ := e.runXDP(dhcpFrame(d.Mac, nil, nil))
+		// antispoof.AddBinding(mac, palindromic ip) ; antispoof_ingress with that source MAC and address
+		e.objs["antispoof"].Clear("subscriber_bindings")
+		e.soft(e.asm.SetMode(antispoof.ModeStrict))
+		e.soft(e.asm.AddBinding(mac, net.IPv4(10, 7, 7, 10)))
+		kv2, _ := e.objs["antispoof"].Dump("subscriber_bindings")
+		fr := append(ethHdr([]byte{2, 0, 0, 0, 0, 9}, d.Mac, nil, 0x0800), ipv4([]byte{10, 7, 7, 10}, []byte{8, 8, 8, 8}, 17, udp(1000, 53, make([]byte, 8)))...)
+		v2, _ := e.runTC("antispoof", "antispoof_ingress", fr)
+		o = obs{"OMac " + nl(bl(d.Mac)), nll([][]uint64{bl(onlyKey(kv)), bl(onlyKey(kv2)), {b2n(v1 == bpfrun.XDPTx), b2n(v2 == bpfrun.TCActOK)}})}
+	case "ip":
+		ip := net.IP(d.IP)
+		var gob []byte
+		hit := false
+		switch d.Site {
+		case 1: // pkg/dhcp: PoolAssignment.AllocatedIP = ebpf.IPToUint32(lease.IP) -> yiaddr of the reply
+			e.dhcpReset()
+			mac := []byte{2, 0, 0, 0, 0, 0x11}
+			e.soft(e.loader.AddSubscriber(bngebpf.MACToUint64(mac), &bngebpf.PoolAssignment{PoolID: 1, AllocatedIP: bngebpf.IPToUint32(ip), LeaseExpiry: maxU64}))
+			raw, _ := e.m("dhcp_fastpath", "subscriber_pools").LookupBytes(bngebpf.MACToUint64(mac))
+			if len(raw) >= 8 {
+				gob = raw[4:8]
+			}
+			v, out := e.runXDP(dhcpFrame(mac, nil, nil))
+			hit = v == bpfrun.XDPTx && len(out) >= 14+20+8+20 && bytes.Equal(out[14+20+8+16:14+20+8+20], d.IP)
+		case 5: // Loader.SetServerConfig: ServerIP = IPToUint32(serverIP) -> source address / siaddr of the reply
+			e.dhcpReset()
+			mac := []byte{2, 0, 0, 0, 0, 0x11}
+			e.soft(e.loader.SetServerConfig(net.HardwareAddr{2, 0, 0, 0, 0, 1}, ip, 1))
+			e.soft(e.loader.AddSubscriber(bngebpf.MACToUint64(mac), &bngebpf.PoolAssignment{PoolID: 1, LeaseExpiry: maxU64}))
+			raw, _ := e.m("dhcp_fastpath", "server_config").LookupBytes(uint32(0))
+			if len(raw) >= 12 {
+				gob = raw[8:12]
+			}
+			v, out := e.runXDP(dhcpFrame(mac, nil, nil))
+			hit = v == bpfrun.XDPTx && len(out) >= 34 && bytes.Equal(out[14+12:14+16], d.IP)
+			if bytes.Equal(d.IP, []byte{0, 0, 0, 0}) { // 0 means "not configured": the program falls back to the pool gateway
+				hit = true
+			}
+		case 2, 6: // nat.AllocateNAT: key ipToKey(private) ; value PortBlock.PublicIP = ipToKey(public)
+			e.newNat()
+			for _, n := range []string{"subscriber_nat", "nat_sessions", "nat_reverse", "eim_table", "hairpin_ips"} {
+				e.objs["nat44"].Clear(n)
+			}
+			priv, pub := ip, net.IPv4(203, 0, 113, 77).To4()
+			if d.Site == 6 {
+				priv, pub = net.IPv4(10, 9, 9, 10).To4(), ip
+			}
+			e.soft(e.natm.AddPublicIP(pub))
+			if _, err := e.natm.AllocateNAT(priv); err != nil {
+				e.soft(err)
+				break
+			}
+			kv, _ := e.objs["nat44"].Dump("subscriber_nat")
+			fr := append(ethHdr([]byte{2, 0, 0, 0, 0, 9}, []byte{2, 0, 0, 0, 0, 8}, nil, 0x0800), ipv4(priv, []byte{8, 8, 8, 8}, 17, udp(4000, 53, make([]byte, 8)))...)
+			_, out := e.runTC("nat44", "nat44_egress", fr)
+			ss, _ := e.objs["nat44"].Dump("nat_sessions")
+			if d.Site == 2 {
+				gob = onlyKey(kv)
+				hit = len(ss) == 1
+			} else {
+				if len(kv) == 1 {
+					gob = kv[0].Value[0:4]
+				}
+				hit = len(ss) == 1 && len(out) >= 30 && bytes.Equal(out[14+12:14+16], d.IP)
+			}
+		case 3: // qos.SetSubscriberQoS: key ipToKey(ip) ; qos_egress_prog looks up ip->daddr
+			e.objs["qos_ratelimit"].Clear("qos_egress")
+			e.objs["qos_ratelimit"].Clear("qos_ingress")
+			e.soft(e.qosm.SetSubscriberQoS(&qos.SubscriberQoS{IP: ip, DownloadBPS: 8000000, UploadBPS: 8000000}))
+			kv, _ := e.objs["qos_ratelimit"].Dump("qos_egress")
+			gob = onlyKey(kv)
+			fr := append(ethHdr([]byte{2, 0, 0, 0, 0, 9}, []byte{2, 0, 0, 0, 0, 8}, nil, 0x0800), ipv4([]byte{8, 8, 8, 8}, ip, 17, udp(53, 4000, make([]byte, 8)))...)
+			e.runTC("qos_ratelimit", "qos_egress_prog", fr)
+			kv, _ = e.objs["qos_ratelimit"].Dump("qos_egress")
+			hit = len(kv) == 1 && binary.LittleEndian.Uint64(kv[0].Value[8:16]) != 0 // last_update written = bucket found
+		case 4: // antispoof.AddBinding: value ipv4_addr = BigEndian.Uint32(ip) ; strict mode compares with ip->saddr
+			e.objs["antispoof"].Clear("subscriber_bindings")
+			e.soft(e.asm.SetMode(antispoof.ModeStrict))
+			mac := net.HardwareAddr{2, 0, 0, 0, 0, 0x22}
+			e.soft(e.asm.AddBinding(mac, ip))
+			kv, _ := e.objs["antispoof"].Dump("subscriber_bindings")
+			if len(kv) == 1 {
+				gob = kv[0].Value[0:4]
+			}
+			fr := append(ethHdr([]byte{2, 0, 0, 0, 0, 9}, mac, nil, 0x0800), ipv4(ip, []byte{8, 8, 8, 8}, 17, udp(1000, 53, make([]byte, 8)))...)
+			v, _ := e.runTC("antispoof", "antispoof_ingress", fr)
+			hit = v == bpfrun.TCActOK
+		}
+		o = obs{fmt.Sprintf("OIp %d %s", d.Site, nl(bl(d.IP))), nll([][]uint64{bl(gob), {b2n(hit)}})}
+		tags = append(tags, fmt.Sprintf("site:%d", d.Site), fmt.Sprintf("palindrome:%v", d.IP[0] == d.IP[3] && d.IP[1] == d.IP[2]))
+	case "cid":
+		e.dhcpReset()
+		e.soft(e.loader.AddCircuitIDSubscriber(d.Cid, &bngebpf.PoolAssignment{PoolID: 1, LeaseExpiry: maxU64}))
+		kv, _ := e.objs["dhcp_fastpath"].Dump("circuit_id_subscribers")
+		cid := d.Cid
+		if cid == nil {
+			cid = []byte{}
+		}
+		v, _ := e.runXDP(dhcpFrame([]byte{2, 0, 0, 0, 0, 0x33}, cid, nil))
+		mk := bngebpf.MakeCircuitIDKey(d.Cid)
+		if !bytes.Equal(mk[:], onlyKey(kv)) {
+			e.errs = append(e.errs, "MakeCircuitIDKey differs from the key AddCircuitIDSubscriber wrote")
+		}
+		o = obs{"OCid " + nl(bl(d.Cid)), nll([][]uint64{bl(onlyKey(kv)), {b2n(v == bpfrun.XDPTx)}})}
+		tags = append(tags, fmt.Sprintf("len<=32:%v", len(d.Cid) >= 1 && len(d.Cid) <= 32))
+	case "vlan":
+		e.dhcpReset()
+		e.soft(e.loader.AddVLANSubscriber(d.S, d.C, &bngebpf.PoolAssignment{PoolID: 1, LeaseExpiry: maxU64}))
+		kv, _ := e.objs["dhcp_fastpath"].Dump("vlan_subscriber_pools")
+		tagsq := [][2]uint16{{0x88a8, uint16(d.P1)<<12 | d.S}, {0x8100, uint16(d.P2)<<12 | d.C}}
+		v, _ := e.runXDP(dhcpFrame([]byte{2, 0, 0, 0, 0, 0x44}, nil, tagsq))
+		o = obs{fmt.Sprintf("OVlan %d %d %d %d", d.S, d.C, d.P1, d.P2), nll([][]uint64{bl(onlyKey(kv)), {b2n(v == bpfrun.XDPTx)}})}
+	case "alg":
+		e.newNat()
+		for _, n := range []string{"subscriber_nat", "nat_sessions", "nat_reverse", "eim_table", "alg_ports", "hairpin_ips"} {
+			e.objs["nat44"].Clear(n)
+		}
+		e.soft(e.m("nat44", "nat_config_map").Put(uint32(0), &nat.NATConfig{Flags: nat.NATFlagALGFTP | nat.NATFlagALGSIP, PortRangeStart: 1024, PortRangeEnd: 65535, DefaultPortsPerSub: 1024}))
+		e.soft(e.natm.AddPublicIP(net.IPv4(203, 0, 113, 77)))
+		priv := net.IPv4(10, 9, 9, 10).To4()
+		_, err := e.natm.AllocateNAT(priv)
+		e.soft(err)
+		e.soft(e.natm.ConfigureALG(d.Port, d.Proto, nat.ALGTypeFTP, true))
+		kv, _ := e.objs["nat44"].Dump("alg_ports")
+		before, err := e.natm.GetStats()
+		e.soft(err)
+		var l4 []byte
+		if d.Proto == 6 {
+			l4 = tcp(4000, d.Port)
+		} else {
+			l4 = udp(4000, d.Port, make([]byte, 8))
+		}
+		fr := append(ethHdr([]byte{2, 0, 0, 0, 0, 9}, []byte{2, 0, 0, 0, 0, 8}, nil, 0x0800), ipv4(priv, []byte{8, 8, 8, 8}, d.Proto, l4)...)
+		e.runTC("nat44", "nat44_egress", fr)
+		after, err := e.natm.GetStats()
+		e.soft(err)
+		trig := before != nil && after != nil && after.ALGTriggers == before.ALGTriggers+1
+		o = obs{fmt.Sprintf("OAlg %d %d", d.Port, d.Proto), nll([][]uint64{bl(onlyKey(kv)), {b2n(trig)}})}
+	case "lpm":
+		e.objs["antispoof"].Clear("subscriber_bindings")
+		e.objs["antispoof"].Clear("allowed_ranges_v4")
+		e.soft(e.asm.SetMode(antispoof.ModeLoose))
+		n := &net.IPNet{IP: net.IP(d.IP).Mask(net.CIDRMask(d.Plen, 32)), Mask: net.CIDRMask(d.Plen, 32)}
+		e.soft(e.asm.AddAllowedRange(n))
+		kv, _ := e.objs["antispoof"].Dump("allowed_ranges_v4")
+		fr := append(ethHdr([]byte{2, 0, 0, 0, 0, 9}, []byte{2, 0, 0, 0, 0, 0x55}, nil, 0x0800), ipv4(d.Src, []byte{8, 8, 8, 8}, 17, udp(1000, 53, make([]byte, 8)))...)
+		v, _ := e.runTC("antispoof", "antispoof_ingress", fr)
+		inpfx := n.Contains(net.IP(d.Src))
+		o = obs{fmt.Sprintf("OLpm %d %s %s", d.Plen, nl(bl(n.IP.To4())), nl(bl(d.Src))), nll([][]uint64{bl(onlyKey(kv)), {b2n(v == bpfrun.TCActOK), b2n(inpfx)}})}
+		e.soft(e.asm.SetMode(antispoof.ModeStrict))
+		tags = append(tags, fmt.Sprintf("in-prefix:%v", inpfx))
+	case "hash":
+		h := bngebpf.HashCircuitID(d.Cid)
+		b := make([]byte, 8)
+		binary.LittleEndian.PutUint64(b, h)
+		o = obs{"OHash " + nl(bl(d.Cid)), nll([][]uint64{bl(b)})}
+	}
+	return vh.Case{Coq: caseTerm([]obs{o}), Desc: d, Tags: tags}
+}
+
+// possibleCPUs parses /sys/devices/system/cpu/possible ("0-15").
+func possibleCPUs() int {
+	b, err := os.ReadFile("/sys/devices/system/cpu/possible")
+	must(err)
+	n := 0
+	for _, part := range strings.Split(strings.TrimSpace(string(b)), ",") {
+		var lo, hi int
+		if c, _ := fmt.Sscanf(part, "%d-%d", &lo, &hi); c == 2 {
+			n += hi - lo + 1
+		} else {
+			n++
+		}
+	}
+	return n
+}
+
+func onlyKey(kv []bpfrun.KV) []byte {
+	if len(kv) != 1 {
+		return nil
+	}
+	return kv[0].Key
+}
+
+// ------------------------------------------------------------------------------ generators
+
+var edge = []byte{0x00, 0x01, 0x7f, 0x80, 0xfe, 0xff}
+
+func genKeys(r *vh.Rng, thorough bool) []Desc {
+	var ds []Desc
+	scale := 1
+	if thorough {
+		scale = 10
+	}
+	// MAC: edge patterns in every position pair + random
+	for i := 0; i < 6; i++ {
+		for _, b := range edge {
+			m := []byte{2, 0x11, 0x22, 0x33, 0x44, 0x55}
+			m[i] = b
+			ds = append(ds, Desc{Kind: "mac", Mac: m})
+		}
+	}
+	ds = append(ds, Desc{Kind: "mac", Mac: []byte{0xff, 0xff, 0xff, 0xff, 0xff, 0xff}}, Desc{Kind: "mac", Mac: []byte{0, 0, 0, 0, 0, 1}})
+	for i := 0; i < 40*scale; i++ {
+		ds = append(ds, Desc{Kind: "mac", Mac: r.Bytes(6)})
+	}
+	// IPv4 per site: palindromes (guarded) and general addresses (defect stream)
+	privs := [][]byte{{10, 0, 0, 1}, {10, 1, 2, 3}, {172, 16, 5, 9}, {192, 168, 1, 100}, {100, 64, 0, 7}, {10, 255, 255, 254}}
+	ppal := [][]byte{{10, 0, 0, 10}, {10, 7, 7, 10}, {10, 255, 255, 10}, {172, 20, 20, 172}, {192, 168, 168, 192}, {100, 64, 64, 100}}
+	pubs := [][]byte{{203, 0, 113, 7}, {198, 51, 100, 1}, {8, 8, 4, 4}, {1, 2, 3, 4}, {255, 0, 0, 1}}
+	pal := [][]byte{{1, 2, 2, 1}, {8, 8, 8, 8}, {203, 0, 0, 203}, {255, 255, 255, 255}, {1, 0, 0, 1}, {77, 200, 200, 77}}
+	for i := 0; i < 6*scale; i++ {
+		a, b := byte(r.U64()), byte(r.U64())
+		pal = append(pal, []byte{a | 1, b, b, a | 1})
+		ppal = append(ppal, []byte{10, b, b, 10})
+		privs = append(privs, []byte{10, byte(r.U64()), byte(r.U64()), byte(r.U64())})
+		pubs = append(pubs, []byte{byte(r.U64())%200 + 11, byte(r.U64()), byte(r.U64()), byte(r.U64())})
+	}
+	for _, site := range []int{1, 3, 4, 5, 6} {
+		for _, ip := range append(append([][]byte{}, pal...), pubs...) {
+			ds = append(ds, Desc{Kind: "ip", Site: site, IP: ip})
+		}
+		for _, ip := range privs {
+			ds = append(ds, Desc{Kind: "ip", Site: site, IP: ip})
+		}
+	}
+	for _, ip := range append(append([][]byte{}, ppal...), privs...) { // site 2: the program only NATs private sources
+		ds = append(ds, Desc{Kind: "ip", Site: 2, IP: ip})
+	}
+	// circuit-ids of every length 0..64 (exhaustive in length), content random / zero-containing
+	for l := 0; l <= 64; l++ {
+		c := r.Bytes(l)
+		for i := range c {
+			c[i] |= 1
+		}
+		ds = append(ds, Desc{Kind: "cid", Cid: c})
+		if thorough || l%8 == 0 {
+			c2 := r.Bytes(l)
+			ds = append(ds, Desc{Kind: "cid", Cid: c2})
+		}
+		ds = append(ds, Desc{Kind: "hash", Cid: c})
+	}
+	// VLAN pairs
+	for _, s := range []uint16{1, 2, 100, 2047, 2048, 4094, 4095} {
+		for _, c := range []uint16{1, 255, 256, 4095} {
+			ds = append(ds, Desc{Kind: "vlan", S: s, C: c, P1: uint8(r.Intn(16)), P2: uint8(r.Intn(16))})
+		}
+	}
+	for i := 0; i < 20*scale; i++ {
+		ds = append(ds, Desc{Kind: "vlan", S: uint16(r.Intn(4095) + 1), C: uint16(r.Intn(4096)), P1: uint8(r.Intn(16)), P2: uint8(r.Intn(16))})
+	}
+	// ALG keys
+	for _, pt := range []uint16{21, 5060, 1, 255, 256, 65535, 32768} {
+		for _, pr := range []uint8{6, 17} {
+			ds = append(ds, Desc{Kind: "alg", Port: pt, Proto: pr})
+		}
+	}
+	for i := 0; i < 6*scale; i++ {
+		ds = append(ds, Desc{Kind: "alg", Port: uint16(r.Intn(65535) + 1), Proto: []uint8{6, 17}[r.Intn(2)]})
+	}
+	// LPM ranges: sources inside and outside
+	for _, c := range []struct {
+		ip   []byte
+		plen int
+		src  []byte
+	}{{[]byte{10, 0, 0, 0}, 8, []byte{10, 1, 2, 3}}, {[]byte{10, 0, 0, 0}, 8, []byte{11, 1, 2, 3}}, {[]byte{192, 168, 7, 0}, 24, []byte{192, 168, 7, 9}},
+		{[]byte{0, 0, 0, 0}, 0, []byte{9, 9, 9, 9}}, {[]byte{10, 7, 7, 10}, 32, []byte{10, 7, 7, 10}}, {[]byte{10, 7, 7, 10}, 32, []byte{10, 7, 7, 11}},
+		{[]byte{100, 64, 0, 0}, 10, []byte{100, 100, 1, 1}}, {[]byte{10, 0, 0, 0}, 8, []byte{0, 5, 5, 10}}} {
+		ds = append(ds, Desc{Kind: "lpm", IP: c.ip, Plen: c.plen, Src: c.src})
+	}
+	for i := 0; i < 8*scale; i++ {
+		ip := r.Bytes(4)
+		plen := r.Intn(33)
+		src := append([]byte{}, ip...)
+		if r.Bool() {
+			src[3] ^= byte(r.U64())
+		} else {
+			src = r.Bytes(4)
+		}
+		ds = append(ds, Desc{Kind: "lpm", IP: ip, Plen: plen, Src: src})
+	}
+	return ds
+}
+
+// ------------------------------------------------------------------------------ main
+
+const header = `From Coq Require Import NArith List Bool String. Import ListNotations.
+From Verif Require Import Base.Word Model.Layout Model.KeyDeriv Gen.Layouts Model.LayoutCheck.
+Local Open Scope N_scope.
+Definition cases : list case := [
+`
+const footer = `
+].
+Definition R := Eval vm_compute in run_cases cases.
+Print R.
+`
+
+func (e *env) run(d Desc, r *vh.Rng, n int) vh.Case {
+	if d.Kind == "layout" {
+		p := e.pairs[d.Pair]
+		if p == nil {
+			e.errs = append(e.errs, "replay names a pair the working tree no longer has: "+d.Pair)
+			return vh.Case{Coq: "[]", Desc: d, Tags: []string{"stale"}}
+		}
+		if len(d.Vals) == 0 && len(d.Raws) == 0 {
+			dd := e.layoutDesc(p, r, n)
+			dd.Field = d.Field
+			d = dd
+		}
+		return e.layoutCase(p, d)
+	}
+	if !e.kernel {
+		return vh.Case{Coq: "[]", Desc: d, Tags: []string{"no-kernel"}}
+	}
+	return e.keyCase(d)
+}
+
+func main() {
+	cfg := vh.ParseFlags()
+	e := newEnv()
+	defer func() {
+		for _, o := range e.objs {
+			o.Close()
+		}
+	}()
+	r := vh.NewRng(cfg.Seed)
+	n := 6
+	if cfg.Thorough() {
+		n = 40
+	}
+	extra := func() map[string]interface{} {
+		return map[string]interface{}{"kernel_bpf": e.kernel, "kernel_test_runs": e.runs, "driver_errors": e.errs, "unexercised_pairs": e.skipped,
+			"pairs": len(e.order), "bpf_dir": e.dir}
+	}
+	if cfg.Replay != "" {
+		var d Desc
+		must(vh.LoadReplay(cfg.Replay, &d))
+		vh.Emit(cfg, "cases", header, footer, []vh.Case{e.run(d, r.Fork(), n)}, extra())
+		return
+	}
+	var corpus []vh.Case
+	for _, f := range vh.CorpusFiles(cfg) {
+		var d Desc
+		must(vh.LoadReplay(f, &d))
+		corpus = append(corpus, e.run(d, r.Fork(), n))
+	}
+	if len(corpus) > 0 {
+		vh.Emit(cfg, "corpus", header, footer, corpus, nil)
+	}
+	var lay []vh.Case
+	for _, p := range e.order {
+		lay = append(lay, e.run(Desc{Kind: "layout", Pair: p.Name}, r.Fork(), n))
+	}
+	ex := extra()
+	ex["exhaustive"] = true
+	cfgL := cfg
+	cfgL.Shard = 12
+	vh.Emit(cfgL, "layouts", header, footer, lay, ex)
+	var keys []vh.Case
+	if e.kernel {
+		for _, d := range genKeys(r.Fork(), cfg.Thorough()) {
+			keys = append(keys, e.run(d, r.Fork(), n))
+		}
+	}
+	vh.Emit(cfg, "keys", header, footer, keys, extra())
 }
